@@ -94,9 +94,9 @@ theorem encode_output_fits (cfg : Cfg) (hcfg : cfg.strSize = Gen.STR_SIZE) (env 
   rw [h2]; split <;> omega
 
 /-- every produced phrase can be fed back without truncation: the lazy NFKD copy keeps an ASCII phrase whole. -/
-theorem lazyNfkd_no_truncation (sgn : Bool) (strSize : Nat) (nfkd : List Nat → List Nat) (s : List Nat)
-    (hlen : s.length < strSize) (hascii : s.any (isNeg sgn) = false) :
-    lazyNfkd sgn strSize nfkd s = (s, false) := by
+theorem lazyNfkd_no_truncation (strSize : Nat) (nfkd : List Nat → List Nat) (s : List Nat)
+    (hlen : s.length < strSize) (hascii : s.any (isNeg) = false) :
+    lazyNfkd strSize nfkd s = (s, false) := by
   unfold lazyNfkd
   have : s.take (strSize - 1) = s := List.take_of_length_le (by omega)
   simp only [this, hascii, Bool.false_eq_true, ↓reduceIte]
